@@ -8,7 +8,7 @@ se == <<"s", <<>>>>
 ka == <<97>>
 kq == <<107, 9>>                 \* a key that needs escaping
 Docs0Def == {<<<<"a", <<sa, sq, i1>>>>>>, <<<<"o", <<<<ka, sa>>, <<kq, <<"a", <<se, sa>>>>>>>>>>>>,
-             <<<<"a", <<<<"o", <<<<ka, sq>>>>>>, sa>>>>>>, <<<<"a", <<sa>>>>>>}
-EditOpsDef == {<<"str", <<122, 122>>>>, <<"int", <<55>>>>, <<"null", 0>>, <<"del", 0>>}
+             <<<<"a", <<<<"o", <<<<ka, sq>>>>>>, sa>>>>>>, <<<<"a", <<sa>>>>>>, <<<<"a", <<i1, n>>>>>>}
+EditOpsDef == {<<"str", <<122, 122>>>>, <<"str", <<121, 121, 121>>>>, <<"int", <<55>>>>, <<"null", 0>>, <<"del", 0>>}
 NumCanonDef == <<>>
 ====
